@@ -22,7 +22,7 @@ func (e *Engine) executable(fn *ssa.Function) bool {
 	case "slices", "sort", "cmp", "strings", "maps", "unicode/utf8", "errors", "internal/stringslite", "internal/bytealg", "math/bits", "bytes":
 		return true
 	}
-	return false
+	return extraExecutable[pkg]
 }
 
 func fnPkgPath(fn *ssa.Function) string {
